@@ -165,7 +165,7 @@ class Signing(Family):
                 raise Viol('signature differs from the deterministic result for the owned nonce %s' % label, want.hex(), bytes(sig).hex())
         if not key.pub.verify(h, sig):
             raise Viol('library does not verify its own signature', True, False)
-        if IsLowDERSignature(sig) is not True:
+        if not IsLowDERSignature(sig):
             raise Viol('IsLowDERSignature false on a low-S signature', True, False)
         return label + (':owned' if owned else ':unowned'), True
 
@@ -247,9 +247,7 @@ class VerifyTable(Family):
                 return 'skip', False
         want = EC.verify(pt, h, r, s)
         got = pub.verify(h, EC.der_encode(r, s))
-        if got is not True and got is not False:
-            raise Viol('verify() did not return a bool', want, repr(got))
-        if got != want:
+        if bool(got) != want:
             raise Viol('verify(pub #%d %s, digest #%d, %s signature)' % (si, comp, di, kind), want, got)
         return '%s:%s' % (kind, want), True
 
@@ -294,15 +292,15 @@ class PubkeyGrid(Family):
             b = bytes([prefix]) + x.to_bytes(32, 'big') + y.to_bytes(32, 'big')
         want = EC.decode_point(b) is not None
         pk = CPubKey(b)
-        if pk.is_fullyvalid is not want:
+        if bool(pk.is_fullyvalid) != want:
             raise Viol('CPubKey(%s).is_fullyvalid' % b.hex(), want, pk.is_fullyvalid)
-        if pk.is_valid is not True or pk.is_compressed != (ln == 33):
+        if not pk.is_valid or bool(pk.is_compressed) != (ln == 33):
             raise Viol('CPubKey is_valid / is_compressed flags', (True, ln == 33), (pk.is_valid, pk.is_compressed))
         # verification with a key that is not a curve point is always false
         if not want:
             for h in (DIGESTS[0], DIGESTS[2], DIGESTS[6]):
                 got = pk.verify(h, EC.der_encode(5, 7))
-                if got is not False:
+                if got:
                     raise Viol('verify() with an invalid public key %s' % b.hex()[:20], False, got)
         return ('valid' if want else 'invalid'), True
 
